@@ -67,6 +67,11 @@ def _same(a, b, values=True):
     return params_key(a, values) == params_key(b, values)
 
 
+def _equal(a, b):
+    """identity laws: same parameters, same return annotation, and equal as (upgraded) signatures."""
+    return _same(a, b) and a.return_annotation == b.return_annotation and a == b and b == a
+
+
 def _ann_key(sig):
     return tuple((p.name, p.annotation is not p.empty) for p in sig.parameters.values())
 
@@ -79,31 +84,41 @@ def _unstar(key):
 def h_unary(ctx, cfg):
     specs = U.gen_sigs(1, cfg['K'])
     s0 = specs[0]
+    with_ret = sym.flip('return-annotation')
     with sym.notrace():
-        ctx.case('laws ' + render_specs(specs), nontrivial=True)
+        ctx.case('laws ' + render_specs(specs) + (' -> int' if with_ret else ''), nontrivial=True)
         sig, fn = U.sig_of(s0, 'f0')
+        if with_ret:
+            import types
+            fn_r = types.FunctionType(fn.__code__, fn.__globals__, fn.__name__, fn.__defaults__, fn.__closure__)
+            fn_r.__kwdefaults__ = fn.__kwdefaults__
+            fn_r.__annotations__ = {'return': int}
+            sig = S.signature(fn_r)
         star = U.Spec((), (), True, True, ())
         star_sig, star_fn = U.sig_of(star, 'g')
         alt = U.Spec((), (), True, True, (), U.STAR_ALT)
         alt_sig, _ = U.sig_of(alt, 'g2')
     info = lambda: dict(sig=str(sig))
     r1 = S.merge(sig)
-    ctx.require('merge(s)=s', _same(r1, sig) and sources_key(r1) == sources_key(sig), info)
+    ctx.require('merge(s)=s', _equal(r1, sig) and sources_key(r1) == sources_key(sig), info)
     r2 = S.merge(sig, sig)
-    ctx.require('merge(s,s)=s', _same(r2, sig), info)
+    ctx.require('merge(s,s)=s', _equal(r2, sig), info)
     for label, other in (('args', star_sig), ('rest', alt_sig)):
         r3 = S.merge(sig, other)
-        ctx.require('neutral-right[%s]' % label, _unstar(params_key(r3, True)) == _unstar(params_key(sig, True)),
+        # (merge builds its result from its first operand: the return annotation is the first operand's, so on the
+        #  right the whole signature is compared, on the left the parameters)
+        ctx.require('neutral-right[%s]' % label, _unstar(params_key(r3, True)) == _unstar(params_key(sig, True)) and
+                    r3.return_annotation == sig.return_annotation,
                     lambda: dict(sig=str(sig), got=str(r3)))
         r4 = S.merge(other, sig)
         ctx.require('neutral-left[%s]' % label, _unstar(params_key(r4, True)) == _unstar(params_key(sig, True)),
                     lambda: dict(sig=str(sig), got=str(r4)))
     sp = S.sort_params(sig)
     r5 = S.apply_params(sig, *sp)
-    ctx.require('apply(sort(s))=s', _same(r5, sig) and r5.return_annotation == sig.return_annotation, info)
+    ctx.require('apply(sort(s))=s', _equal(r5, sig), info)
     sp2 = S.sort_params(sig, sources=True)
     r6 = S.apply_params(sig, *sp2)
-    ctx.require('apply(sort(s,sources))=s', _same(r6, sig) and sources_key(r6) == sources_key(sig), info)
+    ctx.require('apply(sort(s,sources))=s', _equal(r6, sig) and sources_key(r6) == sources_key(sig), info)
 
 
 def h_fold(ctx, cfg):
